@@ -106,6 +106,8 @@ def gen(rng, tier, mult=1):
     quick = tier == "quick"
     for c in T.enum_cases(3 if quick else 5, rng):
         yield c
+    for c in T.both_match_cases():
+        yield c
     n = (2400 if quick else 40000) * mult
     for i in range(n):
         yield T.gen_history_case(rng, style=["random", "clean", "strict", "random"][i % 4])
